@@ -333,6 +333,7 @@ class Engine(object):
         self.covers = {}
         self.pure = 0
         self.pure_guards = []
+        self.escaped = []
         self.pure_vars = []
         self.bound_ids = set()
         self.cuts = {}
@@ -362,6 +363,7 @@ class Engine(object):
                 self.n_infeasible += 1
             except Raised as r:
                 outs.append(("raise", r, p if keep else None))
+                self.escaped.append(repr(r))
             for f in p.forks:
                 work.append(f)
             if not keep:
@@ -1780,6 +1782,13 @@ class Engine(object):
             m = static_lookup(type(c), "__setitem__")
             if m is not _MISSING:
                 return self.call(BoundMethod(m, c), [k, v], {})
+        if not isinstance(k, Sym) and not S.deep_has_sym(v) and hasattr(type(c), "__setitem__"):
+            # a native (third-party) container holding concrete data
+            try:
+                c[k] = v
+            except Exception as e:
+                raise Raised(type(e), e.args, obj=e)
+            return
         raise Unsupported("item assignment on %r" % type(c))
 
     def del_subscript(self, c, k):
